@@ -227,7 +227,22 @@ fn run_direct(h: &History, ctx: &mut Ctx) -> Result<(), Fail> {
                     e.push(*v);
                 }
             }
-            Step::Snapshot => check_snapshot(&mut model, snap.snapshot().into_vec())?,
+            Step::Snapshot => {
+                // the same snapshot taken apart both ways: counters/gauges are state, so two snapshots in a row
+                // agree on them; into_hashmap must hold the very entries into_vec lists
+                let v = snap.snapshot().into_vec();
+                let h = snap.snapshot().into_hashmap();
+                ensure!(h.len() == v.len(), "hashmap-view-differs", "into_vec lists {} entries, into_hashmap holds {}", v.len(), h.len());
+                for (k, u, d, val) in &v {
+                    let Some((hu, hd, hv)) = h.get(k) else { return Err(Fail::new("hashmap-view-differs", format!("{:?} is listed by into_vec but missing from into_hashmap", k))) };
+                    ensure!(hu == u && hd == d, "hashmap-view-differs", "{:?}: metadata differs between the two views", k);
+                    match (val, hv) {
+                        (DebugValue::Histogram(_), DebugValue::Histogram(second)) => ensure!(second.is_empty(), "histogram-value-in-two-snapshots", "{:?}: the snapshot taken right after another one still holds {:?}", k, second),
+                        (a, b) => ensure!(a == b, "hashmap-view-differs", "{:?}: {:?} vs {:?}", k, a, b),
+                    }
+                }
+                check_snapshot(&mut model, v)?
+            }
         }
     }
     drop(rec);
@@ -296,7 +311,22 @@ fn run_macros(h: &History) -> Result<(bool, bool), Fail> {
                     model.see(2, &c);
                     model.hists.entry(c).or_default().push(*v);
                 }
-                Step::Snapshot => check_snapshot(&mut model, snap.snapshot().into_vec())?,
+                Step::Snapshot => {
+                // the same snapshot taken apart both ways: counters/gauges are state, so two snapshots in a row
+                // agree on them; into_hashmap must hold the very entries into_vec lists
+                let v = snap.snapshot().into_vec();
+                let h = snap.snapshot().into_hashmap();
+                ensure!(h.len() == v.len(), "hashmap-view-differs", "into_vec lists {} entries, into_hashmap holds {}", v.len(), h.len());
+                for (k, u, d, val) in &v {
+                    let Some((hu, hd, hv)) = h.get(k) else { return Err(Fail::new("hashmap-view-differs", format!("{:?} is listed by into_vec but missing from into_hashmap", k))) };
+                    ensure!(hu == u && hd == d, "hashmap-view-differs", "{:?}: metadata differs between the two views", k);
+                    match (val, hv) {
+                        (DebugValue::Histogram(_), DebugValue::Histogram(second)) => ensure!(second.is_empty(), "histogram-value-in-two-snapshots", "{:?}: the snapshot taken right after another one still holds {:?}", k, second),
+                        (a, b) => ensure!(a == b, "hashmap-view-differs", "{:?}: {:?} vs {:?}", k, a, b),
+                    }
+                }
+                check_snapshot(&mut model, v)?
+            }
             }
         }
         Ok(())
